@@ -91,6 +91,21 @@ EnvValue(f) ==
 EnvBound(f) == EnvValue(f) # <<>>
 
 ---------------------------------------------------------------------------
+(* key files (core.py Config._keyfile): a configuration uses the key file it names itself
+   (root: Config(schema, key_filename=...); config type: make_type(..., key_filename=...)),
+   else its parent's, else the default ~/.cincokey.  BindKeys resolves this statically over
+   the schema tree: every schema node gets nkey = name of the key file its configurations use. *)
+RECURSIVE BindKeys(_, _)
+BindKeys(S, inherited) ==
+    LET own == IF "keyfile" \in DOMAIN S /\ S.keyfile # "" THEN S.keyfile ELSE inherited IN
+    [S EXCEPT !.fields = [i \in DOMAIN S.fields |->
+        LET k == S.fields[i][1]  f == S.fields[i][2] IN
+        IF f.kind = "schema" THEN <<k, BindKeys(f, own)>>
+        ELSE IF f.kind = "list" /\ f.item.kind = "schema" THEN <<k, [f EXCEPT !.item = BindKeys(f.item, own)]>>
+        ELSE <<k, f>>]] @@ [nkey |-> own]
+NKey(S) == IF "nkey" \in DOMAIN S THEN S.nkey ELSE "default"
+
+---------------------------------------------------------------------------
 (* defaults (the __setdefault__ of each field class) *)
 RECURSIVE NewItems(_, _, _, _, _)
 LeafDefault(f) ==
@@ -268,7 +283,7 @@ LoadPairs(S, c, kv, path) ==
                 f == FieldOf(S, k)
             IN  IF leaf /\ EnvBound(f) THEN LoadPairs(S, c, Tail(kv), path)     \* variable wins: key skipped
                 ELSE
-                LET py == IF leaf /\ ~(f.kind = "list" /\ IsSchema(f.item)) THEN ToPython(f, v)
+                LET py == IF leaf /\ ~(f.kind = "list" /\ IsSchema(f.item)) THEN ToPythonK(f, v, NKey(S))
                           \* ListField(schema).to_python: ListProxy(cfg, f, None) is the empty list;
                           \* the items are turned into configurations by the validation that follows
                           ELSE IF leaf /\ ~Truthy(v) THEN Ok(ListV(<<>>))
@@ -445,6 +460,43 @@ ContainerOp(S, c, p, k, op) ==
             LET r == DictOp(f, cur, op, here) IN
             Res(r.ok, PutAt(c, p, [cp EXCEPT !.vals = Put(@, k, r.cfg)]), r.err, {})
         ELSE Res(FALSE, c, Err("NoContainer", here), {})     \* the value is None: nothing to operate on
+
+---------------------------------------------------------------------------
+(* Config.to_tree(virtual, sensitive_mask)  (core.py:1252-1311).  mask: "nomask" or a
+   character sequence.  Fields in schema order, then the dynamic fields. *)
+RECURSIVE NumLen(_)
+NumLen(n) == IF n < 10 THEN 1 ELSE 1 + NumLen(n \div 10)
+\* len(str(value)) for the value types the models mark sensitive
+StrLen(v) == CASE v.t = "str" -> Len(v.s)
+               [] v.t = "int" -> IF v.i < 0 THEN 1 + NumLen(-v.i) ELSE NumLen(v.i)
+               [] OTHER -> 1
+NoMask == [m |-> "none"]
+MaskS(s) == [m |-> "str", s |-> s]
+MaskOf(mask, v) == IF Len(mask.s) = 1 THEN StrV([i \in 1..StrLen(v) |-> mask.s[1]]) ELSE StrV(mask.s)
+VirtualValue == IntV(42)        \* what the harness's virtual field getters return
+
+RECURSIVE ToTree(_, _, _, _)
+ToTree(S, c, virtual, mask) ==
+    LET render(f, v) ==
+            IF IsCfg(v) THEN ToTree(f, v, virtual, mask)
+            ELSE IF f.kind # "nofield" /\ f.sensitive /\ mask.m # "none" THEN
+                (IF ~Truthy(v) THEN NoneV ELSE MaskOf(mask, v))
+            ELSE IF v.t = "list" /\ v.l # <<>> /\ \A i \in DOMAIN v.l : IsCfg(v.l[i]) THEN
+                ListV([i \in DOMAIN v.l |-> ToTree(f.item, v.l[i], virtual, mask)])
+            ELSE ToBasicK(f, v, NKey(S))
+        one(i) ==
+            LET k == S.fields[i][1]  f == S.fields[i][2] IN
+            IF f.kind = "virtual" THEN
+                (IF virtual /\ ~("imethod" \in DOMAIN f)
+                 THEN << <<StrV(KeyChars[k]),
+                          IF "sensitive" \in DOMAIN f /\ f.sensitive /\ mask.m # "none" THEN MaskOf(mask, VirtualValue) ELSE VirtualValue>> >>
+                 ELSE <<>>)
+            ELSE IF k \notin DOMAIN c.vals THEN <<>>
+            ELSE << <<StrV(KeyChars[k]), render(f, c.vals[k])>> >>
+        RECURSIVE Walk(_)
+        Walk(i) == IF i > Len(S.fields) THEN <<>> ELSE one(i) \o Walk(i + 1)
+        dynp == [j \in DOMAIN c.dyn |-> <<StrV(KeyChars[c.dyn[j]]), c.vals[c.dyn[j]]>>]
+    IN  DictV(Walk(1) \o dynp)
 
 ---------------------------------------------------------------------------
 (* C01: every value a configuration holds satisfies its field's constraints *)
